@@ -109,15 +109,20 @@ def solver_chosen_maps(timeout_ms, k):
         for i in range(n):
             s.add(gcol[i] >= 0, gcol[i] < 100000, sl[i] >= 0, sl[i] < 100000, sc[i] >= 0, sc[i] < 100000, si[i] >= 0, si[i] <= 1)
         s.add(si[0] == 0)
-        if variant % 4 == 0:
+        if variant % 5 == 0:
             s.add(sl[1] - sl[0] >= 512, sl[2] - sl[1] <= -16384, sc[3] - sc[2] >= 16384)
-        elif variant % 4 == 1:
+        elif variant % 5 == 1:
             s.add(sl[0] >= 600, gcol[1] >= 40000, si[1] == 1, si[2] == 0, sl[2] < sl[1] - 1000)
-        elif variant % 4 == 2:
+        elif variant % 5 == 2:
             s.add(sl[1] - sl[0] == 511, sl[2] - sl[1] == 512, sl[3] - sl[2] == -512, sc[1] == 15, sc[2] == 16, sc[3] == 31)
-        else:
+        elif variant % 5 == 3:
             s.add(si[1] == 1, si[3] == 1, sl[3] >= 32768, sc[0] >= 1024)
-        s.add(gcol[0] > variant, sl[0] > variant)
+        else:
+            # positions at the very beginning: source line 0 / column 0 are ordinary values
+            s.add(sl[0] == 0, sc[0] == 0, sl[2] == 0, sc[2] == 0, sl[1] >= 100)
+        s.add(gcol[0] > variant)
+        if variant % 5 != 4:
+            s.add(sl[0] > variant)
         if str(s.check()) != "sat":
             continue
         m = s.model()
@@ -136,7 +141,10 @@ def map_roundtrip(entries):
         while len(index) <= e["gline"]:
             index.append([])
         index[e["gline"]].append(e["gcol"])
-        ents[(e["gline"], e["gcol"])] = R3SourceMapping(line=e["gline"], column=e["gcol"], source=names[e["src"]], source_line=e["sline"], source_column=e["scol"])
+        try:
+            ents[(e["gline"], e["gcol"])] = R3SourceMapping(line=e["gline"], column=e["gcol"], source=names[e["src"]], source_line=e["sline"], source_column=e["scol"])
+        except Exception as ex:  # noqa
+            return "a mapping to (%s, line %d, column %d) cannot be built: %s: %s" % (names[e["src"]], e["sline"], e["scol"], type(ex).__name__, str(ex)[:100])
     try:
         sm = R3SourceMap(filename=None, source_root=None, entries=ents, index=[tuple(x) for x in index])
         js = sm.to_json()
@@ -150,6 +158,22 @@ def map_roundtrip(entries):
         if (b.source, b.source_line, b.source_column) != (m.source, m.source_line, m.source_column):
             return "entry %r decodes to %r, was %r" % (key, (b.source, b.source_line, b.source_column), (m.source, m.source_line, m.source_column))
     return None
+
+
+def smoke_run():
+    """-> list of problems, or a string when the run itself failed"""
+    import json
+    import os
+    import subprocess
+    script = os.path.join(os.path.dirname(os.path.abspath(__file__)), "c15_smoke.py")
+    try:
+        pr = subprocess.run([sys.executable, script], capture_output=True, text=True, timeout=600, cwd=os.path.dirname(script))
+    except Exception as e:  # noqa
+        return "%s: %s" % (type(e).__name__, e)
+    for ln in pr.stdout.splitlines():
+        if ln.startswith("C15SMOKE "):
+            return json.loads(ln[len("C15SMOKE "):])
+    return "no result line (exit %d): %s" % (pr.returncode, (pr.stderr or "")[-300:])
 
 
 def main():
@@ -206,11 +230,20 @@ def main():
         why = real_roundtrip([v])
         if why:
             rep.violation({"kind": "vlq", "values": [v], "why": why}, ["vlq"])
-    for entries in solver_chosen_maps(tmo, 4 if t == "quick" else 16):
+    for entries in solver_chosen_maps(tmo, 5 if t == "quick" else 20):
         agg["replayed"] += 1
         why = map_roundtrip(entries)
         if why:
             rep.violation({"kind": "map-roundtrip", "entries": entries, "why": why}, ["map-roundtrip"])
+    # concrete smoke run of the real pipeline in an interpreter of its own (source mapping is switched on before pyteal is
+    # imported); not the deciding method and not part of the claim - it only reports what it sees
+    smoke = smoke_run()
+    agg["replayed"] += 1
+    if isinstance(smoke, str):
+        rep.harness_error("source-map smoke run did not complete: %s" % smoke)
+        smoke = []
+    for pb in smoke:
+        rep.violation(dict(pb, kind="sourcemap-smoke"), ["sourcemap-smoke"])
     cov = {"states": steps + agg["obligations"], "transitions": forks + agg["obligations"], "traces_validated_against_impl": agg["replayed"],
            "samples": samples or [{"none": True}], "evaluations": agg["obligations"] + agg["replayed"], "distinct_nontrivial": agg["obligations"],
            "rule": "one obligation per feasible path of encode followed by decode (digit counts per value); each is a distinct solver query",
@@ -218,7 +251,8 @@ def main():
            "bounds": {"runs (values, |v| < 2^bits, unwinding)": runs, "word width": "bits + 10 per run"},
            "solver_time_s": round(solver_time, 2),
            "functions_encoded": ["pyteal/compiler/sourcemap.py:_base64vlq_encode", "pyteal/compiler/sourcemap.py:_base64vlq_decode",
-                                 "R3SourceMap.to_json / from_json (concrete replay on solver-chosen maps only)"],
+                                 "R3SourceMap.to_json / from_json (concrete replay on solver-chosen maps only)",
+                                 "Compilation.compile(with_sourcemap=True, annotate_teal=...) (concrete smoke run of four small programs; not part of the claim)"],
            "not_covered": "TEAL identical with and without a source map; one entry per TEAL line; attribution of constants to (file, line); annotated TEAL"}
     write_evidence(PROP, "model_checking", cov, ["table lookups (_b64chars/_b64table) are precomputed constants checked exhaustively, the kernels are interpreted at digit level",
                                                  "Python ints are modelled as 64-bit vectors; the stated value ranges keep every intermediate below 2^63"], rep.wall(), len(rep.violations))
@@ -233,6 +267,11 @@ def replay(record):
     if record.get("kind") == "tables":
         bad, alph = tables_inverse()
         return bool(bad) or not alph
+    if record.get("kind") == "sourcemap-smoke":
+        now = smoke_run()
+        print(now if isinstance(now, str) else [p["what"][:80] for p in now][:5])
+        return not isinstance(now, str) and any(p.get("program") == record.get("program") and p.get("version") == record.get("version")
+                                                  and p.get("annotate") == record.get("annotate") for p in now)
     return False
 
 
